@@ -337,7 +337,9 @@ func Run(cfg Config, jobs []*Job) map[int]map[Variant]*Out {
 		}
 		args := append([]string{"generate"}, u.v.CLIArgs()...)
 		args = append(args, "g.y", outFile)
-		exit, out, to := runCmd(u.dir, 2*time.Minute, nil, "", cfg.Yaccgo, args...)
+		// budget: 600 CPU-seconds (the largest grammars of the campaigns take 20-40); the wall-clock watchdog
+		// only ends a run that is blocked without using CPU and must not fire because the machine is busy
+		exit, out, to := runCmd(u.dir, 30*time.Minute, nil, "", "bash", append([]string{"-c", "ulimit -t 600; exec \"$0\" \"$@\"", cfg.Yaccgo}, args...)...)
 		u.out.GenExit, u.out.GenOut = exit, out
 		b, err := os.ReadFile(filepath.Join(u.dir, outFile))
 		u.out.GenOK = exit == 0 && !to && err == nil && !strings.Contains(out, "panic:")
@@ -449,13 +451,13 @@ func Run(cfg Config, jobs []*Job) map[int]map[Variant]*Out {
 		var errOut string
 		var to bool
 		if u.v.IsTS() {
-			exit, errOut, to = runCmd(u.dir, 5*time.Minute, nil, stdoutPath, cfg.Node, "--no-warnings", "parser.ts", reqPath, respPath)
+			exit, errOut, to = runCmd(u.dir, 45*time.Minute, nil, stdoutPath, cfg.Node, "--no-warnings", "parser.ts", reqPath, respPath)
 		} else {
 			env := []string{}
 			if cfg.Race {
 				env = append(env, "GORACE=halt_on_error=0 log_path="+filepath.Join(u.dir, "race"))
 			}
-			exit, errOut, to = runCmd(u.dir, 5*time.Minute, env, stdoutPath, prog, pkgName(u.job.ID, u.v), reqPath, respPath)
+			exit, errOut, to = runCmd(u.dir, 45*time.Minute, env, stdoutPath, prog, pkgName(u.job.ID, u.v), reqPath, respPath)
 		}
 		if sb, err := os.ReadFile(stdoutPath); err == nil {
 			u.out.Stdout = string(sb)
